@@ -1,0 +1,217 @@
+//! Verification hook (only compiled for `cargo test` with `--cfg ts_rs_verif`).
+//!
+//! Runs internals of the derive in-process on inputs read from the file named by
+//! `$TS_RS_VERIF_IN` and writes one result line per input line to `$TS_RS_VERIF_OUT`.
+//! Lines are tab-separated fields; `\\`, `\t`, `\n` and `\r` are backslash-escaped.
+
+use std::{
+    io::{BufRead, Write},
+    panic::{catch_unwind, AssertUnwindSafe},
+};
+
+use quote::ToTokens;
+use syn::Item;
+
+use crate::{attr::Inflection, types, utils};
+
+fn esc(s: &str) -> String {
+    let mut out = String::with_capacity(s.len());
+    for c in s.chars() {
+        match c {
+            '\\' => out.push_str("\\\\"),
+            '\t' => out.push_str("\\t"),
+            '\n' => out.push_str("\\n"),
+            '\r' => out.push_str("\\r"),
+            c => out.push(c),
+        }
+    }
+    out
+}
+
+fn unesc(s: &str) -> String {
+    let mut out = String::with_capacity(s.len());
+    let mut it = s.chars();
+    while let Some(c) = it.next() {
+        if c == '\\' {
+            match it.next() {
+                Some('t') => out.push('\t'),
+                Some('n') => out.push('\n'),
+                Some('r') => out.push('\r'),
+                Some(c) => out.push(c),
+                None => (),
+            }
+        } else {
+            out.push(c);
+        }
+    }
+    out
+}
+
+fn inflection(name: &str) -> Option<Inflection> {
+    Some(match name {
+        "lowercase" => Inflection::Lower,
+        "UPPERCASE" => Inflection::Upper,
+        "camelCase" => Inflection::Camel,
+        "snake_case" => Inflection::Snake,
+        "PascalCase" => Inflection::Pascal,
+        "SCREAMING_SNAKE_CASE" => Inflection::ScreamingSnake,
+        "kebab-case" => Inflection::Kebab,
+        "SCREAMING-KEBAB-CASE" => Inflection::ScreamingKebab,
+        _ => return None,
+    })
+}
+
+/// `;`-separated token text, sorted (the order comes from a `HashSet`).
+fn sorted_statements(tokens: proc_macro2::TokenStream) -> String {
+    let text = tokens.to_string();
+    let mut parts: Vec<&str> = text
+        .split(';')
+        .map(str::trim)
+        .filter(|s| !s.is_empty())
+        .collect();
+    parts.sort();
+    parts.join(" ; ")
+}
+
+fn expand(source: &str) -> Result<Vec<String>, String> {
+    let item = syn::parse_str::<Item>(source).map_err(|e| format!("syntax: {e}"))?;
+    let (ts, ident, generics) = match item {
+        Item::Struct(s) => (
+            types::struct_def(&s).map_err(|e| e.to_string())?,
+            s.ident,
+            s.generics,
+        ),
+        Item::Enum(e) => (
+            types::enum_def(&e).map_err(|e| e.to_string())?,
+            e.ident,
+            e.generics,
+        ),
+        _ => return Err("unsupported item".to_owned()),
+    };
+
+    let mut concrete: Vec<String> = ts
+        .concrete
+        .iter()
+        .map(|(k, v)| format!("{k} = {}", v.to_token_stream()))
+        .collect();
+    concrete.sort();
+
+    let mut fields = vec![
+        ts.ts_name.to_token_stream().to_string(),
+        ts.docs.clone(),
+        ts.inline.to_string(),
+        ts.inline_flattened
+            .as_ref()
+            .map(|x| x.to_string())
+            .unwrap_or_else(|| "-".to_owned()),
+        sorted_statements(ts.dependencies.to_token_stream()),
+        concrete.join(" ; "),
+        ts.bound
+            .as_ref()
+            .map(|b| {
+                b.iter()
+                    .map(|p| p.to_token_stream().to_string())
+                    .collect::<Vec<_>>()
+                    .join(" , ")
+            })
+            .unwrap_or_else(|| "-".to_owned()),
+        ts.export.to_string(),
+        ts.export_to
+            .as_ref()
+            .map(|x| x.to_token_stream().to_string())
+            .unwrap_or_else(|| "-".to_owned()),
+    ];
+    // the complete impl block must be produced without panicking, too
+    let full = ts.into_impl(ident, generics);
+    fields.push(full.to_string().len().to_string());
+    Ok(fields)
+}
+
+fn docs(lines: &[String]) -> Result<Vec<String>, String> {
+    let attrs: Vec<syn::Attribute> = lines
+        .iter()
+        .map(|l| syn::parse_quote!(#[doc = #l]))
+        .collect();
+    utils::parse_docs(&attrs)
+        .map(|s| vec![s])
+        .map_err(|e| e.to_string())
+}
+
+fn run(fields: &[String]) -> Result<Vec<String>, String> {
+    let arg = |i: usize| fields.get(i).cloned().ok_or("missing argument".to_owned());
+    match fields.first().map(String::as_str) {
+        Some("inflect") => {
+            let rule = inflection(&arg(2)?).ok_or("unknown rule")?;
+            let id = arg(3)?;
+            Ok(vec![match arg(1)?.as_str() {
+                "field" => rule.apply(&id),
+                "variant" => rule.apply(&id),
+                _ => return Err("unknown position".to_owned()),
+            }])
+        }
+        // per character: U = is_uppercase, A = is_alphanumeric, N = is_numeric, L = is_lowercase
+        Some("charprops") => Ok(arg(1)?
+            .chars()
+            .map(|c| {
+                let mut f = String::new();
+                if c.is_uppercase() {
+                    f.push('U');
+                }
+                if c.is_alphanumeric() {
+                    f.push('A');
+                }
+                if c.is_numeric() {
+                    f.push('N');
+                }
+                if c.is_lowercase() {
+                    f.push('L');
+                }
+                f.push_str(&format!(":{}:{}", c.to_lowercase(), c.to_uppercase()));
+                f
+            })
+            .collect()),
+        Some("tsfield") => Ok(vec![utils::raw_name_to_ts_field(arg(1)?)]),
+        Some("docs") => docs(&fields[1..]),
+        Some("expand") => expand(&arg(1)?),
+        _ => Err("unknown command".to_owned()),
+    }
+}
+
+#[test]
+fn verif_hook() {
+    let (Ok(input), Ok(output)) = (
+        std::env::var("TS_RS_VERIF_IN"),
+        std::env::var("TS_RS_VERIF_OUT"),
+    ) else {
+        return;
+    };
+    std::panic::set_hook(Box::new(|_| ()));
+    let input = std::io::BufReader::new(std::fs::File::open(input).unwrap());
+    let mut output = std::io::BufWriter::new(std::fs::File::create(output).unwrap());
+    for line in input.lines() {
+        let line = line.unwrap();
+        let fields: Vec<String> = line.split('\t').map(unesc).collect();
+        let result = catch_unwind(AssertUnwindSafe(|| run(&fields)));
+        let text = match result {
+            Ok(Ok(out)) => {
+                let mut s = "OK".to_owned();
+                for f in out {
+                    s.push('\t');
+                    s.push_str(&esc(&f));
+                }
+                s
+            }
+            Ok(Err(e)) => format!("ERR\t{}", esc(&e)),
+            Err(p) => {
+                let msg = p
+                    .downcast_ref::<String>()
+                    .cloned()
+                    .or_else(|| p.downcast_ref::<&str>().map(|s| s.to_string()))
+                    .unwrap_or_default();
+                format!("PANIC\t{}", esc(&msg))
+            }
+        };
+        writeln!(output, "{text}").unwrap();
+    }
+    output.flush().unwrap();
+}
